@@ -1,10 +1,10 @@
 (** C09 - Fit heuristics keep the any-fit invariant (and the bin-count bound that follows from it).
-    The sharp bounds floor(1.7 OPT) for best-fit, 11/9 OPT + 6/9, 11/9 OPT + 4 are NOT proved (DESIGN section 8): they are
+    The sharp bounds floor(1.7 OPT), 11/9 OPT + 6/9, 11/9 OPT + 4 are NOT proved (DESIGN section 8): they are
     tested against the verified min_bins oracle; what is proved is the invariant, length <= 2 OPT - 1, 3/2 OPT for the
-    decreasing variants and, for first-fit, the weight-function bound 10 * bins <= 17 * OPT + 9 (ceil(1.7 OPT); the property's
-    floor(1.7 OPT) of Dosa and Sgall differs from it by at most one bin and only when 1.7 OPT is not an integer).
+    decreasing variants and, for first-fit and best-fit, the weight-function bound 10 * bins <= 17 * OPT + 9 (ceil(1.7 OPT); the
+    property's floor(1.7 OPT) of Dosa and Sgall differs from it by at most one bin and only when 1.7 OPT is not an integer).
     Statements only; proofs in Proofs/PackingProofs.v and Proofs/OracleSpec.v. *)
-From Prtpy Require Import Base.Prelude Model.Binner Model.Packing Spec.Partition Oracle.Reach Proofs.PackingProofs Proofs.OracleSpec Proofs.FFDRatioProofs Proofs.BFDRatioProofs Proofs.FF17Proofs.
+From Prtpy Require Import Base.Prelude Model.Binner Model.Packing Spec.Partition Oracle.Reach Proofs.PackingProofs Proofs.OracleSpec Proofs.FFDRatioProofs Proofs.BFDRatioProofs Proofs.FF17Proofs Proofs.BF17Proofs.
 
 (** first-fit: for any two bins, the earlier sum plus the first item of the later bin exceeds the bin size *)
 Theorem C09_ff_anyfit : forall (A : Type) (valueof : A -> Z) (C : Z) (items : list A) (b : bins A),
@@ -89,3 +89,10 @@ Theorem C09_ff_ratio_17_partial : forall (A : Type) (valueof : A -> Z) (C : Z) (
   first_fit valueof true C items = Ok b -> Packable C (map valueof items) n -> (10 * length b <= 17 * n + 9)%nat.
 Proof. exact @ff_ratio_17_strong. Qed.
 Print Assumptions C09_ff_ratio_17_partial.
+
+(** best-fit: at most ceil(1.7 OPT) bins (same weight function; PARTIAL with respect to floor(1.7 OPT): off by at most one bin) *)
+Theorem C09_bf_ratio_17_partial : forall (A : Type) (valueof : A -> Z) (C : Z) (items : list A) (b : bins A) (n : nat),
+  items <> [] -> Forall (fun x : A => 0 <= valueof x) items ->
+  best_fit valueof true C items = Ok b -> Packable C (map valueof items) n -> (10 * length b <= 17 * n + 9)%nat.
+Proof. exact @bf_ratio_17_strong. Qed.
+Print Assumptions C09_bf_ratio_17_partial.
